@@ -551,6 +551,40 @@ fn sub_long_strings(input: &[u8], st: &mut Stats) -> R {
     check_bytes(&bytes, st, &|| format!("Op{} with a literal string of {} bytes (unit {:?}), variant {}", opname, text.len(), unit, ["intact", "surplus word", "cut", "intact"][variant])).map(|_| ())
 }
 
+/// `structural-variations`: generated modules under `layout::mutate2` (special words at instruction
+/// boundaries, modules back to back, a text split over two instructions inside a character, ids
+/// around 2^16, swapped / repeated instructions)
+fn sub_structural(input: &[u8], st: &mut Stats) -> R {
+    let mut cs = Cs::new(input);
+    let mode = pick_mode(&mut cs);
+    let m = gen_module(&mut cs, mode, 24);
+    let (bytes, kinds) = crate::layout::mutate2(&mut cs, &m);
+    for k in &kinds {
+        st.count(&format!("structural_{}", k));
+    }
+    check_bytes(&bytes, st, &|| format!("{}structural edits: {:?}", m.render(), kinds))?;
+    check_words_agree(&bytes)
+}
+
+/// `bulk-modules`: binaries in which the number of declarations crosses 2^16 / 2^17 (see
+/// `c10::gen_bulk`), intact or cut / extended in their last instructions
+fn sub_bulk(input: &[u8], st: &mut Stats) -> R {
+    let mut cs = Cs::new(input);
+    let (mut words, desc) = crate::checks::c10::gen_bulk(&mut cs);
+    let variant = cs.below(4);
+    match variant {
+        0 => {
+            let k = 1 + cs.below(6);
+            words.truncate(words.len() - k);
+        }
+        1 => words.push(cs.lit32()),
+        _ => {}
+    }
+    let bytes = words_to_bytes(&words);
+    st.count("bulk_modules");
+    check_bytes(&bytes, st, &|| format!("{}\nvariant {}", desc, ["last words cut", "one word appended", "intact", "intact"][variant])).map(|_| ())
+}
+
 pub const SUBS: &[Sub] = &[
     Sub {
         name: "negative-sweep",
@@ -572,6 +606,14 @@ pub const SUBS: &[Sub] = &[
         name: "long-strings",
         f: sub_long_strings,
     },
+    Sub {
+        name: "structural-variations",
+        f: sub_structural,
+    },
+    Sub {
+        name: "bulk-modules",
+        f: sub_bulk,
+    },
 ];
 
 pub fn run(ctx: &Ctx) {
@@ -581,6 +623,8 @@ pub fn run(ctx: &Ctx) {
     drive_random(ctx, &SUBS[2], ctx.n(40_000, 20_000_000), 1200);
     drive_random(ctx, &SUBS[3], ctx.n(10_000, 5_000_000), 4000);
     drive_random(ctx, &SUBS[4], ctx.n(40, 4_000), 64);
+    drive_random(ctx, &SUBS[5], ctx.n(30_000, 10_000_000), 1200);
+    drive_random_costly(ctx, &SUBS[6], ctx.n(12, 3_000), 400);
     if !ctx.quick() && !ctx.failed() {
         crate::fuzzing::drive_fuzz(ctx, "bytes", 500_000);
     }
